@@ -10,6 +10,8 @@
 (*   "smootherTake"  SmootherTake::smoothing - black circles, white        *)
 (*                   circles (nowait), black radial lines, white radial;   *)
 (*   "xsmootherTake" ExtrapolatedSmootherTake - the same schedule;         *)
+(*   "smootherGive"  SmootherGive::smoothingForLoop - 16 loops, circle and  *)
+(*                   radial work overlapped by nowait in four epochs;      *)
 (*   "residualTake"  ResidualTake::computeResidual - all circles and all   *)
 (*                   radial lines in one epoch (both loops nowait).        *)
 (* A region is a sequence of loops [nowait, tasks]; a task has an          *)
@@ -18,9 +20,10 @@
 (* also the shape classes the test suite never builds.  The observed       *)
 (* tables of the real operators must be contained in these (conformance).  *)
 (***************************************************************************)
-EXTENDS Integers, Sequences, FiniteSets, TLC, Json, SequencesExt
+EXTENDS Integers, Sequences, FiniteSets, TLC, Json, SequencesExt, IOUtils
 
-CONSTANTS NrSet, NtSet, Ops, EmitTables
+CONSTANTS NrSet, NtSet, Ops, EmitTables,
+          FIXED      \* repaired defects: subset of {"F19"} (F19: the give smoothers sweep sequentially unless ntheta % 4 = 0)
 VARIABLES s      \* [op, nr, nt, nc, dir]
 vars == <<s>>
 
@@ -78,18 +81,62 @@ ResidualTakeRegion ==
   << [nowait |-> TRUE, tasks |-> {TakeRes(i, CircleNodes(i)) : i \in 0..(s.nc - 1)}],
      [nowait |-> TRUE, tasks |-> {TakeRes(j, RadialNodes(j)) : j \in 0..(s.nt - 1)}] >>
 
+(* ------------------------------ smoother (give) -------------------------- *)
+\* SmootherGive::smoothingForLoop: 16 loops.  Circle i has colour Black iff it has the parity of the outermost circle
+\* nc-1; radial line j is Black iff j is even.  applyAscOrtho*Section(line, colour) works "inside" (the line has the
+\* colour: it accumulates into temp on ITSELF from x on its neighbours) or "outside" (it accumulates into temp on
+\* its NEIGHBOUR lines from x on itself).  Footprints are given per line (a superset of the cells really touched).
+CircleBlack(i) == (s.nc - 1 - i) % 2 = 0
+Ring(i) == IF i >= 0 /\ i < s.nr THEN CircleNodes(i) ELSE {}
+Rad(j) == RadialNodes(WT(j))
+GCirc(t, colour) ==       \* task t works on circle i = nc - 1 - t (t = -1: the first ring of the radial part)
+  LET i == s.nc - 1 - t
+      inside == i < s.nc /\ (CircleBlack(i) = (colour = "Black"))
+  IN IF inside THEN [id |-> t, w |-> Tag("temp", Ring(i)), r |-> Tag("x", Ring(i - 1) \cup Ring(i + 1))]
+     ELSE [id |-> t, w |-> Tag("temp", (IF i - 1 >= 0 THEN Ring(i - 1) ELSE {}) \cup (IF i + 1 <= s.nc - 1 THEN Ring(i + 1) ELSE {})),
+           r |-> Tag("x", Ring(i))]
+GRad(t, colour) ==        \* task t works on radial line j = t (from the last circle outwards)
+  LET inside == (t % 2 = 0) = (colour = "Black")
+      near == Rad(t - 1) \cup Rad(t) \cup Rad(t + 1) \cup {Node(s.nc - 1, t - 1), Node(s.nc - 1, t), Node(s.nc - 1, t + 1)}
+  IN IF inside THEN [id |-> t, w |-> Tag("temp", Rad(t)), r |-> Tag("x", near) \cup Tag("rhs", Rad(t))]
+     ELSE [id |-> t, w |-> Tag("temp", Rad(t - 1) \cup Rad(t + 1)), r |-> Tag("x", near) \cup Tag("rhs", Rad(t))]
+GSolveC(t) == LET i == s.nc - 1 - t IN [id |-> t, w |-> Tag("temp", Ring(i)) \cup Tag("x", Ring(i)), r |-> {}]
+GSolveR(t) == [id |-> t, w |-> Tag("temp", Rad(t)) \cup Tag("x", Rad(t)), r |-> {}]
+Lp(nw, T) == [nowait |-> nw, tasks |-> T]
+SmootherGiveRegion ==
+  << Lp(FALSE, {GCirc(t, "Black") : t \in Pass(0, s.nc, 2)}),            \* inside black circles
+     Lp(FALSE, {GCirc(t, "Black") : t \in {k - 1 : k \in Pass(0, s.nc + 1, 4)}}),   \* outside, tasks -1, 3, 7, ...
+     Lp(FALSE, {GCirc(t, "Black") : t \in Pass(1, s.nc, 4)}),
+     Lp(FALSE, {GSolveC(t) : t \in Pass(0, s.nc, 2)}),                    \* solve black circles
+     Lp(TRUE,  {GCirc(t, "White") : t \in Pass(1, s.nc, 2)}),            \* inside white circles   | same epoch as
+     Lp(FALSE, {GRad(t, "Black") : t \in Pass(0, s.nt, 2)}),             \* inside black radials   |
+     Lp(TRUE,  {GCirc(t, "White") : t \in Pass(0, s.nc, 4)}),            \* outside white circles  |
+     Lp(FALSE, {GRad(t, "Black") : t \in Pass(1, s.nt, 4)}),             \* outside black radials  |
+     Lp(TRUE,  {GCirc(t, "White") : t \in Pass(2, s.nc, 4)}),
+     Lp(FALSE, {GRad(t, "Black") : t \in Pass(3, s.nt, 4)}),
+     Lp(TRUE,  {GSolveC(t) : t \in Pass(1, s.nc, 2)}),                    \* solve white circles    |
+     Lp(FALSE, {GSolveR(t) : t \in Pass(0, s.nt, 2)}),                    \* solve black radials    |
+     Lp(FALSE, {GRad(t, "White") : t \in Pass(1, s.nt, 2)}),
+     Lp(FALSE, {GRad(t, "White") : t \in Pass(0, s.nt, 4)}),
+     Lp(FALSE, {GRad(t, "White") : t \in Pass(2, s.nt, 4)}),
+     Lp(FALSE, {GSolveR(t) : t \in Pass(1, s.nt, 2)}) >>
+
 \* ExtrapolatedSmootherTake::extrapolatedSmoothing has the schedule of SmootherTake::smoothing (it relaxes fewer unknowns per line)
 Region == CASE s.op = "residualGive" -> ResidualRegion
             [] s.op = "residualTake" -> ResidualTakeRegion
             [] s.op \in {"smootherTake", "xsmootherTake"} -> SmootherRegion
+            [] s.op = "smootherGive" -> IF "F19" \in FIXED /\ s.nt % 4 # 0 THEN <<>> ELSE SmootherGiveRegion
 
 (* -------------------------------- properties ----------------------------- *)
-RECURSIVE Epoch(_)
-Epoch(l) == IF l = 1 THEN 0 ELSE Epoch(l - 1) + (IF Region[l - 1].nowait THEN 0 ELSE 1)
+\* the region is evaluated ONCE per state (LET), its loops and the epoch numbering are passed on as values
+RECURSIVE EpochOf(_, _)
+EpochOf(reg, l) == IF l = 1 THEN 0 ELSE EpochOf(reg, l - 1) + (IF reg[l - 1].nowait THEN 0 ELSE 1)
 Conflict(a, b) == (a.w \cap (b.r \cup b.w) # {}) \/ (b.w \cap a.r # {})
-EpochDisjoint == \A l1 \in 1..Len(Region), l2 \in 1..Len(Region) :
-                   (l1 <= l2 /\ Epoch(l1) = Epoch(l2)) =>
-                     \A a \in Region[l1].tasks, b \in Region[l2].tasks : (l1 # l2 \/ a.id # b.id) => ~Conflict(a, b)
+EpochDisjoint == LET reg == Region
+                     ep == [l \in 1..Len(reg) |-> EpochOf(reg, l)]
+                 IN \A l1 \in 1..Len(reg), l2 \in 1..Len(reg) :
+                      (l1 <= l2 /\ ep[l1] = ep[l2]) =>
+                        \A a \in reg[l1].tasks, b \in reg[l2].tasks : (l1 # l2 \/ a.id # b.id) => ~Conflict(a, b)
 \* every line is worked on exactly once (no line forgotten or assembled twice by the remainder rule)
 AllRadialOnce == s.op = "residualGive" =>
                    /\ UNION {RadLines(k) : k \in 0..(NumRad - 1)} = 0..(s.nt - 1)
@@ -97,15 +144,21 @@ AllRadialOnce == s.op = "residualGive" =>
 AllCirclesOnce == s.op \in {"smootherTake", "xsmootherTake"} =>
                    Pass(StartBlack, s.nc, 2) \cup Pass(StartWhite, s.nc, 2) = 0..(s.nc - 1) /\ (s.nc - 1) \in Pass(StartBlack, s.nc, 2)
 
-Init == \E op \in Ops, nr \in NrSet, nt \in NtSet, nc \in 2..9, dir \in BOOLEAN :
-          /\ nc <= nr - 3
-          /\ s = [op |-> op, nr |-> nr, nt |-> nt, nc |-> nc, dir |-> dir]
+\* the shapes: the box NrSet x NtSet x 2..9 circles x boundary mode, or exactly the shapes listed in the file IOEnv.ZSHAPES
+ShapeList == IF "ZSHAPES" \in DOMAIN IOEnv THEN ndJsonDeserialize(IOEnv.ZSHAPES) ELSE <<>>
+Init == IF ShapeList = <<>>
+        THEN \E op \in Ops, nr \in NrSet, nt \in NtSet, nc \in 2..9, dir \in BOOLEAN :
+               /\ nc <= nr - 3
+               /\ s = [op |-> op, nr |-> nr, nt |-> nt, nc |-> nc, dir |-> dir]
+        ELSE \E op \in Ops, k \in 1..Len(ShapeList) :
+               s = [op |-> op, nr |-> ShapeList[k].nr, nt |-> ShapeList[k].nt, nc |-> ShapeList[k].nc, dir |-> ShapeList[k].dir # 0]
 Next == UNCHANGED s
 Spec == Init /\ [][Next]_vars
 
 TaskSeq(T) == LET RECURSIVE f(_)
                   f(U) == IF U = {} THEN <<>> ELSE LET m == CHOOSE x \in U : \A y \in U : x.id <= y.id IN <<[id |-> m.id, w |-> SetToSeq(m.w), r |-> SetToSeq(m.r)]>> \o f(U \ {m})
               IN f(T)
-Table == [shape |-> s, loops |-> [l \in 1..Len(Region) |-> [nowait |-> Region[l].nowait, epoch |-> Epoch(l), tasks |-> TaskSeq(Region[l].tasks)]]]
+Table == LET reg == Region
+         IN [shape |-> s, loops |-> [l \in 1..Len(reg) |-> [nowait |-> reg[l].nowait, epoch |-> EpochOf(reg, l), tasks |-> TaskSeq(reg[l].tasks)]]]
 Emit == IF EmitTables THEN PrintT("@@CASE " \o ToJson(Table)) ELSE TRUE
 =============================================================================
